@@ -41,7 +41,7 @@ def r1_field_ownership(ctx):
                                   loc=f.loc(line))
                     break
     ctx.count("individual_field_projections", n)
-    ctx.floor("C05.R1", "projections of Individual's fields", n, 18)
+    ctx.floor("C05.R1", "projections of Individual's fields", n, 10)
 
 
 def mk_ind(tag, evaluated):
@@ -109,7 +109,7 @@ def ind_oracle(interp, env, f, args, t, bb, path):
 def r2_invariant(ctx):
     F = ctx.facts
     fns = [f for f in F.all_fns if f.impl_self_adt == IND and f.kind != "Closure"]
-    ctx.floor("C05.R2", "functions in impl blocks of Individual", len(fns), 15)
+    ctx.floor("C05.R2", "functions in impl blocks of Individual", len(fns), 12)
     n = 0
     for fn in fns:
         if fn.key in EXEMPT:
@@ -219,27 +219,32 @@ def r3_entry_points(ctx):
     for h in sorted(k for k in F.fns if k.startswith("mahf::testing::")):
         uu = {x for x in users(h) if not x.startswith("mahf::testing::")}
         ctx.check(not uu, "C05.R3", h, "callers", "%s (fabricated objective) is used by library code: %s" % (h, sorted(uu)))
-    u = users(IND + "::set_objective")
-    ctx.check(not u, "C05.R3", IND + "::set_objective", "callers", "set_objective (arbitrary objective) is used by %s" % sorted(u))
-    sites = F.callers_of(lambda c: c.get("key") == IND + "::evaluate_with")
-    ctx.floor("C05.R3", "evaluate_with call sites", len(sites), 2)
-    for (f, bb, t) in sites:
-        root = F.fn_opt(f.parent) if f.kind == "Closure" else f
-        in_eval = root is not None and root.impl_trait == "mahf::problems::evaluate::Evaluate" and root.name == "evaluate"
-        ctx.check(in_eval, "C05.R3", f.key, "evaluate_with:caller", "evaluate_with is called outside an Evaluate implementation", loc=f.loc(t.get("line")))
-        # the closure passed returns problem.objective(<own argument>)
-        ce = strip(f.body.expr_of_op(t["args"][1]))
-        good = False
-        why = expr_str(ce)
-        if ce[0] == "agg" and ce[1] == "closure":
-            clo = F.fn_opt(ce[2])
-            if clo is not None:
-                r = clo.body.expr_of_local(0)
-                if r[0] == "call" and r[3]["f"].get("key") == "mahf::problems::evaluate::ObjectiveFunction::objective":
-                    leaf, cs, fields = origin(r[2][1])
-                    good = leaf == ("arg", 2) and not cs
-                why = expr_str(r)
-        ctx.check(good, "C05.R3", f.key, "evaluate_with:closure", "the value stored is %s, not problem.objective(<the individual's own solution>)" % why, detail=why[:120], loc=f.loc(t.get("line")))
+    # set_objective / evaluate_with store an objective computed elsewhere: they may only be used inside the Evaluate
+    # implementations (their closures and private helpers included); that the value stored there is f(own solution) for
+    # every individual is decided semantically by the evaluator rule (C06.R2), borrowed below
+    roots = {f.key for f in F.all_fns if f.impl_trait == "mahf::problems::evaluate::Evaluate" and f.name == "evaluate"}
+
+    def covered(key, depth=0):
+        if key in roots:
+            return True
+        g = F.fn_opt(key)
+        if g is None or depth > 4:
+            return False
+        if g.kind == "Closure":
+            return covered(g.parent, depth + 1)
+        if g.vis in ("pub", "public") or g.impl_trait:
+            return False
+        cs = users(key)
+        return bool(cs) and all(covered(c, depth + 1) for c in cs)
+    for entry in ("set_objective", "evaluate_with"):
+        u = users(IND + "::" + entry)
+        if entry == "evaluate_with":
+            ctx.floor("C05.R3", "evaluate_with / set_objective users", len(u | users(IND + "::set_objective")), 1)
+        outside = sorted(x for x in u if not covered(x))
+        ctx.check(not outside, "C05.R3", IND + "::" + entry, "callers", "%s (stores an objective value computed by the caller) is used outside the Evaluate implementations: %s" % (entry, outside), detail=str(sorted(u)))
+    import c06
+    from c08 import ProxyCtx
+    c06.r2_evaluators(ProxyCtx(ctx, "C06.R2", "C05.R3"))
     # offspring wrappers
     fn = [f for f in F.all_fns if f.key.endswith("as mahf::population::IntoIndividuals>::into_individuals")]
     good = len(fn) == 1 and {c["key"] for (_f, _b, c) in F.fn_refs(lambda c: c.get("key", "").startswith(IND + "::")) if _f is fn[0]} == {IND + "::new_unevaluated"}
